@@ -328,6 +328,26 @@ func (s *Sim) handleTx(t *PendingTx, m *txMeta, obs *TxObs, r *abci.ExecTxResult
 			plainOnly = false
 		}
 	}
+	if obs.IsPanic() && kind == "recv" && !plainOnly && len(m.Pkts) > 1 {
+		// a batch: which of its packets panics when delivered on its own (on a branch of the state as it is now)?
+		culprits, orbiterCulprit := 0, false
+		for _, p := range m.Pkts {
+			if p.State != PktInFlight {
+				continue
+			}
+			v := s.runVariant("culprit", nil, false, s.recvCB(s.stackFull(), p.packet(), s.Env.Relayers[0].Addr))
+			if v.Panic != "" && v.Panic != "out of gas" {
+				culprits++
+				p.Poisoned = true
+				if s.classify(p).ToOrbiter {
+					orbiterCulprit = true
+				}
+			}
+		}
+		if culprits > 0 && !orbiterCulprit {
+			plainOnly = true // every packet that panics by itself is one the orbiter only passes through
+		}
+	}
 	if obs.IsPanic() && kind == "recv" && plainOnly && !injectedPanic {
 		// no packet of this transaction is for the orbiter: the panic is the wrapped application's own (C14 speaks
 		// about the orbiter's handling; C07 demands that such a packet behaves exactly as without the middleware,
